@@ -29,7 +29,8 @@ ASSUMPTIONS = [
 ]
 FLOORS = {'cyclic_cases': 100, 'acyclic_cases': 100, 'failure_cases': 100,
           'budget_armed': 200, 'evaluate_entries_seen': 1000,
-          'deep_chain_cases': 6, 'derived_models': 50}
+          'deep_chain_cases': 6, 'derived_models': 50,
+          'absolute_cycles': 60, 'linked_workbook_cases': 8}
 ANCHOR_FUNCS = {
     'xlcalculator/evaluator.py': ['Evaluator.evaluate',
                                   'EvaluatorContext.eval_cell'],
@@ -59,16 +60,20 @@ def plus(*xs):
 ONE = ('lit', 1, '1')
 
 
-def cycle_graph(length, tail, closing, sheets):
+def cycle_graph(length, tail, closing, sheets, absolute='none'):
     """cells in column A; the cycle is rows tail+1 .. tail+length, the tail
-    rows 1..tail lead into it.  -> (cells, names, start key, n cells)"""
+    rows 1..tail lead into it.  absolute: how every reference is spelt
+    (A1, $A$1, $A1, A$1).  -> (cells, names, start key, n cells)"""
     cells, names = {}, {}
+    ac, ar = {'none': (False, False), 'all': (True, True),
+              'col': (True, False), 'row': (False, True)}[absolute]
+    fl = (ac, ar, ac, ar)
     s_of = (lambda i: sheets[i % len(sheets)])
     total = tail + length
     for i in range(1, total + 1):
         nxt = i + 1 if i < total else tail + 1      # last closes the cycle
         s, sn = s_of(i), s_of(nxt)
-        target = R(1, nxt, sn if sn != s else None)
+        target = ('ref', sn if sn != s else None, 1, nxt, ac, ar)
         if i == total:
             if closing == 'range':
                 # close through a range that contains the cycle's first cell
@@ -76,13 +81,13 @@ def cycle_graph(length, tail, closing, sheets):
                 target = ('call', 'SUM', [('rng', sn if sn != s else None, 1,
                                            tail + 1, 1, tail + 1 + (
                                                1 if length > 1 else 0),
-                                           (False,) * 4)])
+                                           fl)])
                 if len(sheets) > 1:
                     # members of the range live on sheet sn: only row tail+1
                     # is guaranteed to be there
                     target = ('call', 'SUM', [('rng', sn if sn != s else None,
                                                1, tail + 1, 1, tail + 1,
-                                               (False,) * 4)])
+                                               fl)])
             elif closing == 'name':
                 names['CYC'] = ('ref', sn, 1, nxt, True, True)
                 target = ('name', 'CYC')
@@ -226,10 +231,16 @@ def run(ctx):
                     if closing == 'name' and not (thorough or
                                                   (length + tail) % 3 == 0):
                         continue
+                    absolute = ['none', 'all', 'col', 'row', 'none', 'all'][
+                        work % 6] if not thorough else rng.choice(
+                            ['none', 'all', 'col', 'row'])
                     cells, names, start, total = cycle_graph(
-                        length, tail, closing, sheets)
+                        length, tail, closing, sheets, absolute)
+                    ctx.event('absolute_cycles' if absolute != 'none'
+                              else 'relative_cycles')
                     desc = (f'cycle length {length}, tail {tail}, closed by '
-                            f'{closing}, {len(sheets)} sheet(s)')
+                            f'{closing}, {len(sheets)} sheet(s), references '
+                            f'spelt {({"none": "A1", "all": "$A$1", "col": "$A1", "row": "A$1"})[absolute]}')
                     try:
                         wb, model = C.build(cells, names, 'dict')
                     except Exception as e:  # noqa
@@ -246,7 +257,8 @@ def run(ctx):
                     except ref.RefCycle:
                         pass
                     judge_cyclic(desc, ('cycle', length, tail, closing,
-                                        len(sheets)), wb, model, start, total)
+                                        len(sheets), absolute), wb, model,
+                                 start, total)
                     # entry in the middle of the cycle as well
                     if length > 1:
                         mid = (sheets[(tail + 2) % len(sheets)], 1, tail + 2)
@@ -318,6 +330,56 @@ def run(ctx):
         judge_acyclic(desc, ('decoy', desc), wb, model, start, len(cells))
         judge_acyclic(desc + ' (same evaluator again)', ('decoy2', desc), wb,
                       model, start, len(cells), ev=C.last_evaluator)
+
+    # ---- two acyclic workbooks, one reading the other through a user function ---
+    # (an application-level link: the outer formula calls EXTERNAL(address),
+    # which asks the OTHER workbook's own Evaluator; both evaluations are in
+    # progress at the same time and touch equal addresses)
+    if sh == 0 or thorough:
+        from xlcalculator import Evaluator
+        from xlcalculator.xlfunctions import xl
+        layouts = {
+            'same address': (
+                {'A1': '=EXTERNAL("Sheet1!A1")+1'},
+                {'A1': '=A2+1', 'A2': 5}, 'Sheet1!A1', 7.0),
+            'end of a chain': (
+                {'A1': '=A2+1', 'A2': '=A3*2', 'A3': '=EXTERNAL("Sheet1!A2")'},
+                {'A1': '=A2+1', 'A2': '=A3+1', 'A3': 1}, 'Sheet1!A1', 5.0),
+            'diamond': (
+                {'A1': '=B1+B2', 'B1': '=EXTERNAL("Sheet1!A1")',
+                 'B2': '=EXTERNAL("Sheet1!B1")+A3', 'A3': 2},
+                {'A1': '=B1*2', 'B1': '=A3+1', 'A3': 3}, 'Sheet1!A1', 14.0),
+            'inner reads the outer address through a range': (
+                {'A1': '=SUM(B1:B2)', 'B1': '=EXTERNAL("Sheet1!C1")', 'B2': 1},
+                {'C1': '=SUM(A1:B1)', 'A1': 2, 'B1': 3}, 'Sheet1!A1', 6.0),
+        }
+        for lname, (outer, inner, start, want_v) in layouts.items():
+            for rep in range(2):
+                m_in = subject.compile_dict(inner)
+                m_out = subject.compile_dict(outer)
+                ev_in = Evaluator(m_in)
+                ns = xl.FUNCTIONS.copy()
+                ns['EXTERNAL'] = lambda a, ev_in=ev_in: ev_in.evaluate(str(a))
+                ev_out = Evaluator(m_out, namespace=ns)
+                if rep:
+                    # the inner workbook has been evaluated before
+                    ev_in.evaluate('Sheet1!A1')
+                rec.arm(budget=400, depth_budget=40)
+                ctx.event('budget_armed')
+                got = subject.outcome_of(lambda: ev_out.evaluate(start))
+                rec.arm()
+                cls = classify_outcome(got if got[0] == 'value' else
+                                       ('raised', got[1]))
+                ctx.event('acyclic_cases')
+                ctx.event('linked_workbook_cases')
+                ctx.case(('linked-workbooks', lname, rep, cls))
+                if got != ('value', ('num', want_v)):
+                    ctx.fail(f'two acyclic workbooks linked through a user '
+                             f'function ({lname}): {start} -> {got}, expected '
+                             f'{want_v}', {'outer': outer, 'inner': inner,
+                                           'observed': got},
+                             monitor='acyclic-never-flagged',
+                             group=f'linked:{lname}:{cls}')
 
     # ---- chains deeper than the interpreter's call stack allows ----------------
     # Whatever such an evaluation ends in (the value, or a failure because the
